@@ -114,6 +114,60 @@ def track (T : TGrid) (start : GBlock) (dirn : Nat) (maxVol : Option Rat) :
     Except Exc (List GBlock × List Rat) :=
   trackLoop T dirn maxVol (T.blocks.length + 1) start none none [] []
 
+/-! ### lines of blocks (hypothesis of `Props.C18.direction_track_sizes`, evaluated by the driver) -/
+
+/-- connection `c` joins the blocks named `a` and `b` (either orientation) -/
+def joins (c : GConn) (a b : Str) : Bool := (c.b0 = a && c.b1 = b) || (c.b0 = b && c.b1 = a)
+
+def touches (c : GConn) (l : Str) : Bool := c.b0 = l || c.b1 = l
+
+/-- the block at the other end of `c` is registered but not admissible (a boundary block:
+    zero or huge volume), so `next_block_in_direction` passes over it -/
+def inadmissible (T : TGrid) (mv : Option Rat) (n : Str) (c : GConn) : Bool :=
+  match findB T (otherEnd c n) with
+  | .ok nb => !volOk mv nb
+  | .error _ => false
+
+/-- every direction-`k` connection of `T` that touches block `n` is in `allowed`, or leads to a
+    boundary block -/
+def incidentAmong (T : TGrid) (k : Nat) (mv : Option Rat) (n : Str) (allowed : List GConn) : Bool :=
+  T.conns.all fun c => !(decide (c.dirn = k) && touches c n) || allowed.contains c || inadmissible T mv n c
+
+/-- `isLine T k mv last prev b steps`: standing on block `b`, reached from the block named `last`
+    through connection `prev` (both absent at the start): the only direction-`k` connections of `b`
+    are `prev`, the next step's connection and connections to boundary blocks; each step's connection is a connection of the grid
+    in direction `k` joining `b` to the next block and not touching `last`; the next block is
+    registered and admissible (`0 < volume < max_volume`). -/
+def isLine (T : TGrid) (k : Nat) (mv : Option Rat) : Option Str → Option GConn → GBlock → List (GConn × GBlock) → Bool
+  | last, prev, b, [] =>
+    incidentAmong T k mv b.name prev.toList &&
+    prev.all (fun p => match last with | some l => touches p l | none => false)
+  | last, prev, b, (c, nb) :: rest =>
+    incidentAmong T k mv b.name (prev.toList ++ [c]) &&
+    prev.all (fun p => match last with | some l => touches p l | none => false) &&
+    T.conns.contains c && decide (c.dirn = k) && joins c b.name nb.name &&
+    (match last with | some l => !touches c l | none => true) &&
+    decide (findB T nb.name = .ok nb) && volOk mv nb && isLine T k mv (some b.name) (some c) nb rest
+
+/-- the connection's own distance for block `n` -/
+def distAt (c : GConn) (n : Str) : Rat := if c.b0 = n then c.d0 else c.d1
+
+def lineBlocks (b : GBlock) (steps : List (GConn × GBlock)) : List GBlock := b :: steps.map (·.2)
+
+def lineSizes : Option GConn → GBlock → List (GConn × GBlock) → List Rat
+  | none, _, [] => []
+  | some lc, b, [] => [2 * distAt lc b.name]
+  | _, b, (c, nb) :: rest => 2 * distAt c b.name :: lineSizes (some c) nb rest
+
+/-- the steps `block_direction_track` takes from `b` (used by the driver to *evaluate* `isLine`
+    on the tracks of an actual grid) -/
+def stepsFrom (T : TGrid) (k : Nat) (mv : Option Rat) : Nat → GBlock → Option Str → List (GConn × GBlock)
+  | 0, _, _ => []
+  | fuel + 1, b, last =>
+    match nextBlock T b.name last k mv with
+    | .ok (some (nb, c)) => (c, nb) :: stepsFrom T k mv fuel nb (some b.name)
+    | _ => []
+
 /-- elevation used by `blockelevs`: `none` is `nan` -/
 def elev (maxVol : Option Rat) (b : GBlock) : Option Rat :=
   match b.centre with
